@@ -2,8 +2,10 @@ package rules
 
 import (
 	"fmt"
+
 	"go/token"
 	"go/types"
+	"verif/internal/lanes"
 
 	"golang.org/x/tools/go/ssa"
 
@@ -20,15 +22,17 @@ func init() {
 		Explanation: "Decides on the current source: R1 in every AVP walk loop (loops whose body decodes an AVP from a re-slice of the loop's buffer) the amount added to the cursor has the decoded AVP's wire Length field as its only non-constant origin — no call through AVP.Data, no (*AVP).Len — and equals round-up-to-4 of Length for all Length ≥ 0 (decided exactly in the domain K·L + T[L mod 4], helpers inlined); " +
 			"R2 in the AVP decoder the Length field comes from bytes 5..7 of the input, and every path to the payload slice passed guards establishing header size ≤ Length ≤ len(data) with header size 8, or 12 exactly under the V-flag predicate, each failing guard returning a non-nil error; " +
 			"R3 the bytes handed to datatype.Decode are exactly data[hdr:Length], with no type-dependent re-slicing; " +
-			"R4 the walk loops hand the decoder b[n:] of the enclosing container (no longer slice), so R2's bound is the container's. " +
+			"R4 the walk loops hand the decoder b[n:] of the enclosing container (no longer slice), so R2's bound is the container's; " +
+			"R5 a walk loop is left only through an error return or on the edge where the cursor has reached the end of the container, so no trailing bytes are skipped. " +
 			"Given R1–R4 the framing is a function of the Length fields by construction. Not decided: comparison with a reference framer as executed behaviour.",
 		Rules: map[string]string{
 			"R1": "walk-loop stride: only origin is the decoded AVP's Length, equals round-up-4(Length) for all residues",
 			"R2": "decoder: hdr ≤ Length ≤ len(data) established before the payload slice; failing guards return errors; hdr is 12 iff V",
 			"R3": "payload given to datatype.Decode is data[:Length][hdr:]",
 			"R4": "walk loops pass b[n:] of the loop-invariant container",
+			"R5": "walk loops are left only with an error or when the cursor has reached the end of the container (no bytes skipped)",
 		},
-		MinInstances: map[string]int{"R1": 2, "R2": 3, "R3": 1, "R4": 2},
+		MinInstances: map[string]int{"R1": 2, "R2": 3, "R3": 1, "R4": 2, "R5": 2},
 		Assumptions:  []string{"integer overflow ignored for lengths < 2^24 (int is at least 32 bits)"},
 	})
 }
@@ -200,6 +204,7 @@ func runC04(c *Ctx) {
 		} else {
 			r.Ok("R4", key4, c.pos(w.call), "re-slicing form: decoder receives the remaining container")
 		}
+		c.c04WalkExit(w)
 	}
 	c.c04Decoder()
 }
@@ -250,22 +255,46 @@ func (c *Ctx) c04Decoder() {
 
 func (c *Ctx) c04DecoderFn(f *ssa.Function, data *ssa.Parameter, lenStore *ssa.Store) {
 	r := c.R
-	// R2a: Length = int(uint24(data[5:8]))
+	// R2a: every store to AVP.Length in the decoder is the big-endian integer of data[5:8]
 	key := fname(f) + ":length-from-bytes-5..7"
-	okLen := false
-	{
-		v := flow.Peel(lenStore.Val)
-		if call, ok := v.(*ssa.Call); ok && len(call.Call.Args) == 1 {
-			if sl, ok := call.Call.Args[0].(*ssa.Slice); ok && sl.X == ssa.Value(data) {
-				lo, ok1 := flow.ConstInt(sl.Low)
-				hi, ok2 := flow.ConstInt(sl.High)
-				if ok1 && ok2 && lo == 5 && hi == 8 {
-					okLen = true
-				}
+	rd := &lanes.Reader{
+		IsBase:   func(v ssa.Value) bool { return v == ssa.Value(data) },
+		MaxDepth: 3,
+		Callee: func(call *ssa.Call) *ssa.Function {
+			g := flow.StaticCallee(call)
+			if g == nil || !c.P.InModule(pkgOf(g)) {
+				return nil
 			}
-		}
+			return g
+		},
 	}
-	r.Check(okLen, "R2", key, c.pos(lenStore), "AVP.Length is decoded from data[5:8]", "AVP.Length does not come from bytes 5..7 of the AVP header")
+	var wire *ssa.Store
+	flow.Instrs(f, func(in ssa.Instruction) {
+		st, ok := in.(*ssa.Store)
+		if !ok {
+			return
+		}
+		if tn, fld, _, ok := flow.FieldOf(st.Addr); !ok || tn != "AVP" || fld != "Length" {
+			return
+		}
+		w := rd.Eval(st.Val)
+		if w.IsBigEndianOf(5, 8) {
+			if wire == nil {
+				wire = st
+				r.Ok("R2", key, c.pos(st), "AVP.Length = big-endian integer of data[5:8] (lanes "+w.String()+")")
+			}
+			return
+		}
+		k2 := key
+		if wire != nil {
+			k2 = fname(f) + ":length-overwritten"
+		}
+		r.Fail("R2", k2, c.pos(st), "AVP.Length is assigned a value that is not the 24-bit big-endian integer at bytes 5..7 of the AVP header (byte lanes "+w.String()+"; expected [d[5] d[6] d[7]]): boundaries no longer follow the declared length")
+	})
+	if wire == nil {
+		return
+	}
+	lenStore = wire
 
 	isLenLoad := func(v ssa.Value) bool {
 		u, ok := v.(*ssa.UnOp)
@@ -482,4 +511,68 @@ func (c *Ctx) findConstLenGuard(f *ssa.Function, at ssa.Instruction, sl ssa.Valu
 		k, ok := flow.ConstInt(v)
 		return ok && k >= need
 	}, true)
+}
+
+// c04WalkExit: R5 — a walk loop may only be left (a) through an error return or (b) on the edge
+// where the cursor has reached the end of the container (n >= len(b), or len(b) == 0 in the
+// re-slicing form). Leaving while bytes remain silently skips them.
+func (c *Ctx) c04WalkExit(w *walkLoop) {
+	r := c.R
+	key := fname(w.fn) + ":walk-exit"
+	var cursor ssa.Value
+	var container ssa.Value
+	if w.slice != nil {
+		cursor, container = w.slice.Low, w.slice.X
+	} else {
+		container = w.call.Call.Args[0] // the loop phi itself
+	}
+	n := 0
+	for b := range w.loop.Blocks {
+		for si, s := range b.Succs {
+			if w.loop.Blocks[s] {
+				continue
+			}
+			n++
+			// exit edge b -> s
+			if returnsNonNilError(s) {
+				continue
+			}
+			ifi, ok := b.Instrs[len(b.Instrs)-1].(*ssa.If)
+			if !ok {
+				r.Fail("R5", key, c.pos(b.Instrs[len(b.Instrs)-1]), "the walk loop is left unconditionally without an error while bytes may remain")
+				return
+			}
+			rl, ok := condRel(ifi.Cond, si == 0)
+			good := false
+			if ok {
+				if cursor != nil {
+					// n >= len(container)  /  len(container) <= n
+					if sameVal(rl.a, cursor) && rl.op == token.GEQ {
+						if x, isLen := builtinOf(rl.b, "len"); isLen && sameVal(x, container) {
+							good = true
+						}
+					}
+					if sameVal(rl.b, cursor) && rl.op == token.LEQ {
+						if x, isLen := builtinOf(rl.a, "len"); isLen && sameVal(x, container) {
+							good = true
+						}
+					}
+				} else {
+					// len(b) <= 0, len(b) == 0, !(len(b) > 0)
+					if x, isLen := builtinOf(rl.a, "len"); isLen && sameVal(x, container) && isZeroConst(rl.b) && (rl.op == token.LEQ || rl.op == token.EQL) {
+						good = true
+					}
+				}
+			}
+			if !good {
+				r.Fail("R5", key, c.pos(ifi), fmt.Sprintf("the walk loop can be left without an error on the edge %s=%v, which does not mean that the cursor reached the end of the container: trailing bytes (e.g. a fragment shorter than an AVP header) are skipped silently instead of being rejected", short(ifi.Cond.String(), 40), si == 0))
+				return
+			}
+		}
+	}
+	if n == 0 {
+		r.Undecided("R5", key, c.pos(w.call), "walk loop has no exit edge")
+		return
+	}
+	r.Ok("R5", key, c.pos(w.call), fmt.Sprintf("%d exit edges: error returns, or the cursor reached len(container)", n))
 }
